@@ -30,7 +30,8 @@ RULE = ("Cases = (integrand with a closed-form integral, HISTORY of 2..7 quad ca
         "integrand is in the easy core of the domain ((|a|+|b|) L <= 12, no rational/Gaussian factor; noconv:*); with a "
         "large reported error on the harder rim it is inconclusive. Metamorphic: reversed path negates, split path "
         "agrees (2x tolerance, same precision and API); a call repeated later in the history must still be within "
-        "tolerance (history:*). Non-trivial = non-polynomial integrand, or dimension >= 2, or a history in which the "
+        "tolerance (history:*). In 2-3 dimensions quad reports only the outermost error estimate: a wrong result whose "
+        "one-dimensional sections admit a large error goes to nd:inner-error-dropped:*. Non-trivial = non-polynomial integrand, or dimension >= 2, or a history in which the "
         "precision changes.")
 ASSUMPTIONS = ["mpmath 1.3.0 (frozen copy `mpref`) evaluates exp, sin, cos, atan, erf, gamma and the lower incomplete gamma "
                "function correctly at 2p+80 / 3p+100 bits (two evaluations must agree to p+30 bits of the scale)",
@@ -270,7 +271,21 @@ def _history(d, paths, cap, nmax, new_path, rule=None, allow_cls=True, strict=Fa
     precs = [_precs(d, cap)]
     steps = []
     n = d.int(2, nmax)
+    script = []
+    if cap >= 100 and nmax >= 4 and d.int(0, 3) == 0:
+        # cache pattern: the transformed nodes of an interval are stored at its second use and served from the third
+        # use on: same path three or four times, low precision twice, then a much higher one, then the low one again
+        lo = min(precs[0], cap - 40)
+        hi = min(cap, lo + d.int(40, 160))
+        precs = [lo, hi]
+        script = [lo, lo, hi, lo] if d.bool() else [lo, hi, hi, lo, hi]
+        script = script[:max(3, nmax)]
+        n = max(n, len(script))
+        api0 = d.choice(APIS_TS if main_rule == "ts" else APIS_GL)
     for i in range(n):
+        if i < len(script):
+            steps.append({"p": script[i], "path": 0, "api": api0, "err": d.int(0, 4) != 0, "py": False})
+            continue
         if i == 0:
             pi, p = 0, precs[0]
         else:
@@ -1011,6 +1026,36 @@ def _call(mp, mpmath, api, f, pts, err):
     raise ValueError(api)
 
 
+def _inner_error_hidden(mp, f, mpts, tol, mr, api):
+    """multidimensional quad keeps only the error estimate of the outermost integration.  Integrate one-dimensional
+    sections (all other variables fixed at a point of their range) with error=True: True if one of them admits an
+    error above the tolerance, i.e. the inner integrations of the multidimensional call failed silently."""
+    method = "gauss-legendre" if _rule_of(api) == "gl" else "tanh-sinh"
+    fixed = []
+    for q in mpts:
+        a, b = q[0], q[1]
+        if mp.isinf(a) and mp.isinf(b):
+            fixed.append(mp.mpf(1) / 4)
+        elif mp.isinf(b):
+            fixed.append(a + mp.mpf(3) / 4)
+        elif mp.isinf(a):
+            fixed.append(b - mp.mpf(3) / 4)
+        else:
+            fixed.append(a + (b - a) * mp.mpf(3) / 8)
+    for i in range(len(mpts)):
+        def g(t, i=i):
+            xs = list(fixed)
+            xs[i] = t
+            return f(*xs)
+        try:
+            v, e = mp.quad(g, mpts[i], method=method, error=True)
+        except ZeroDivisionError:
+            continue
+        if _ref_of(mr, e) > mr.mpf(2) ** -(mp.prec - 10):
+            return True
+    return False
+
+
 def _domain(case, pts):
     dim = case["dim"]
     if dim > 1:
@@ -1161,6 +1206,9 @@ def check_case(case):
                     mr.nstr(repr_, 3) if repr_ is not None else "n/a")
                 if prev is not None and prev[2]:
                     res.bad("history:%s:%s" % (rule, dom), "same call gave a correct result earlier in this history; " + detail)
+                elif case["dim"] >= 2 and _inner_error_hidden(mp, f, mpts, tol, mr, api):
+                    res.bad("nd:inner-error-dropped:%s" % rule, "a one-dimensional section of the integrand reports an "
+                            "error estimate above the tolerance but the multidimensional call does not: " + detail)
                 elif repr_ is not None and abs(repr_) > tol:
                     if _hardness(case, pts):
                         res.bad("noconv:%s:%s" % (rule, dom), detail)
